@@ -442,10 +442,14 @@ def gen_c19(rng, tier):
     # load config / security shapes, shared and self-referential resource trees, Rich headers): every modelled
     # member of the document, through the constructors the case itself uses and through the wrapper
     harvested = []
+    always = []          # images every run serializes, whatever the sampling below keeps
     for pid in ("C08", "C09", "C15", "C12", "C16"):
         p = REGISTRY.get(pid)
         for g in (p.gens if p else []):
             for c in g(rng, tier):
+                if g.__name__ == "gen_dangling":
+                    always.append((c[0], sorted(set(l.split(" ")[1] for l in c[1:] if re.match(r"(f32|f64|v32|v64)$", l.split(" ")[1])))))
+                    continue
                 img, kinds = None, set()
                 for l in c:
                     if l.startswith("img "):
@@ -464,7 +468,7 @@ def gen_c19(rng, tier):
     lim = 250 if tier == "quick" else 5000
     if len(harvested) > lim:
         harvested = [harvested[i] for i in sorted(rng.sample(range(len(harvested)), lim))]
-    for img, kinds in harvested:
+    for img, kinds in always + harvested:
         case = [img]
         for k in kinds:
             kw = "w" + k[0]
